@@ -136,7 +136,8 @@ class Walker:
                 rhs = strip(s["inner"][1])
                 if lhs.get("kind") == "DeclRefExpr" and lhs["referencedDecl"]["name"] in getattr(self, "ptrnull", set()):
                     # a message pointer that starts as NULL and is pointed at a text on some path
-                    if rhs.get("kind") in ("DeclRefExpr", "StringLiteral"): self.msgvars.add(lhs["referencedDecl"]["name"])
+                    isnull = rhs.get("kind") == "GNUNullExpr" or (rhs.get("kind") == "IntegerLiteral" and rhs.get("value") == "0")
+                    if not isnull: self.msgvars.add(lhs["referencedDecl"]["name"])      # pointed at a text: a buffer, a literal, what a helper returns
                 self.expr(s["inner"][1])
             elif k in ("NullStmt",): pass
             elif k in ("WhileStmt", "ForStmt", "DoStmt", "SwitchStmt", "GotoStmt"): raise Unsupported(f"a {k}")
